@@ -382,6 +382,11 @@ package client
 //@   ensures [C01] result != nil ==> ((result.Tags == nil) <==> s[0] != '@')
 //@   ensures [C01] result != nil && s[0] != '@' && s[0] != ':' ==> result.Src == "" && result.Nick == "" && result.Ident == "" && result.Host == ""
 //@   ensures [C01] result != nil && s[0] == ':' ==> firstIdx(s, " ") >= 1 && result.Src === s[1:firstIdx(s, " ")]
+// a source-less, tag-less, non-CTCP message with a trailing parameter: the last argument is exactly
+// the text after the first " :" (empty when nothing follows)
+//@   ensures [C01] result != nil && s[0] != '@' && s[0] != ':' && firstIdx(s, " :") >= 0 && !ctcpVerb(result.Cmd) && result.Cmd != "ACTION"
+//@        && (exists j int :: 0 <= j && j < firstIdx(s, " :") && s[j] < 128 && !asciiSpace(s[j]))
+//@        ==> len(result.Args) >= 1 && result.Args[len(result.Args)-1] === s[firstIdx(s, " :")+2:]
 //@   loop 0:
 //@     invariant true
 //@     invariant [C01] line != nil && line.Raw === old(s) && line.Tags != nil && line.Src == "" && line.Nick == "" && line.Ident == "" && line.Host == "" && len(old(s)) > 0 && old(s)[0] == '@'
@@ -1520,6 +1525,7 @@ package client
 //@   property C13
 //@   requires stOK(conn) && line != nil && len(line.Args) >= 1
 //@   modifies heap, $held, $tr, $log
+//@   callpre [C13] state.(*stateTracker).Associate 1 joinPending(arg0, arg1, arg2)
 //@   ensures [C13] stOK(conn)
 //@ end
 //@ func (*Conn).h_353
